@@ -45,6 +45,28 @@ func ruleReplaceOrder(c *eng.Ctx) {
 		"cmd/restic.handleUnreadableSnapshotFile": "repair snapshots --forget: removes a snapshot file that cannot even be read",
 	}
 	origF := c.P.Field("internal/data.Snapshot", "Original")
+	// a removal that sits in an unexported helper without a save of its own is judged where the
+	// helper is called (the ordering against SaveSnapshot is the caller's); the id it removes is
+	// still judged in the helper
+	idCallOf := map[ssa.CallInstruction]ssa.CallInstruction{}
+	var lifted []eng.Site
+	for _, s := range sites {
+		rf := eng.Root(s.Fn)
+		name := c.P.FnName(rf)
+		_, isEx := exceptions[name]
+		if !isEx && rf == s.Fn && rf.Object() != nil && !rf.Object().Exported() && len(c.P.CallsTo(rf, fnSaveSnapshot)) == 0 {
+			if callers := c.P.AllCallsTo(name); len(callers) > 0 {
+				c.Touch(rf)
+				for _, cs := range callers {
+					idCallOf[cs.Call] = s.Call
+					lifted = append(lifted, cs)
+				}
+				continue
+			}
+		}
+		lifted = append(lifted, s)
+	}
+	sites = lifted
 	for _, s := range sites {
 		c.Touch(s.Fn)
 		fn := s.Fn
@@ -52,6 +74,10 @@ func ruleReplaceOrder(c *eng.Ctx) {
 		key := c.P.FnName(fn) + "→remove(snapshot)"
 		si := s.Call.(ssa.Instruction)
 		saves := c.P.CallsTo(fn, fnSaveSnapshot)
+		idCall := s.Call
+		if ic, ok := idCallOf[s.Call]; ok {
+			idCall = ic
+		}
 		// R1: a removal is never followed by the save of the replacement
 		for _, sv := range saves {
 			if p := eng.FindPath(eng.After(si), sv.(ssa.Instruction), nil); p != nil {
@@ -79,7 +105,7 @@ func ruleReplaceOrder(c *eng.Ctx) {
 		c.MustPass(rule, key+":save-ok→remove-old", eng.Entry(fn), si, eng.SuccessCut(saves...), "data.SaveSnapshot returned nil")
 		// the id removed is the old snapshot's own id
 		okID := false
-		for _, r := range eng.Origins(eng.Arg(s.Call, 2), nil) {
+		for _, r := range eng.Origins(eng.Arg(idCall, 2), nil) {
 			if ld, isLd := r.(*ssa.UnOp); isLd {
 				if call := eng.RootCall(ld.X); call != nil && c.P.CalleeName(call) == "internal/data.Snapshot.ID" {
 					okID = true
